@@ -8,4 +8,6 @@ mkdir -p build
 (cd harness && cargo build --offline 2>&1 | tail -2)
 (cd coq && coq_makefile -f _CoqProject -o Makefile >/dev/null)
 tools/build_model.sh
+# the real CLI binary (C18); RUSTFLAGS empty: hooks off for the binary
+RUSTFLAGS= cargo build --offline --bin phylotree --manifest-path /repo/Cargo.toml --target-dir /verif/build/cli_target 2>&1 | tail -1
 echo "setup done"
